@@ -358,8 +358,10 @@ def explicit_construction_step(obs, rng, spec, model, ds, revisit):
         renamed = ds.rename(renames)
         observe_detection(obs, renamed.copy(), rng, 'arakawa-coordinates-renamed', spec)
         revisit = list(revisit) + [('arakawa-coordinates-renamed', renamed.copy())]
+        # the generic class, or the SHOC class with its hard-coded names overridden for this one dataset
+        klass = arakawa_c.ArakawaC if rng.random() < 0.5 else klass_named('ShocStandard')
         with quiet_warnings():
-            made = obs.call('ArakawaC(dataset, coordinate_names=)', arakawa_c.ArakawaC, renamed, coordinate_names=new_names)
+            made = obs.call('%s(dataset, coordinate_names=)' % klass.__name__, klass, renamed, coordinate_names=new_names)
         if not isinstance(made, Failed):
             size = obs.call('grid_size of the explicitly constructed convention', lambda: dict(made.grid_size))
             if not isinstance(size, Failed):
